@@ -34,6 +34,9 @@ F1 = "C16-F1-carried-sort-not-visible"
 F2 = "C16-F2-carried-sort-other-pipeline"
 F3 = "C16-F3-lookup-cid-panic"
 F4 = "C16-F4-duplicate-column-instance"
+F5 = "C16-F5-group-partition-in-relational-argument"
+F6 = "C16-F6-relation-parameter-used-twice"
+F7 = "C16-F7-excluded-column-of-sub-pipeline"
 
 MISSING_ID_PANIC = re.compile(r"no entry found for key|cannot find cid|called `Option::unwrap\(\)` on a `None` value")
 ID_LOOKUP_FILES = ("sql/pq/context.rs", "sql/pq/anchor.rs", "sql/pq/positional_mapping.rs", "semantic/lowering.rs")
@@ -62,24 +65,94 @@ def dup_column_tables(q):
     return out
 
 
-def classify_diags(q, diags):
+def rel_param_twice(src):
+    """the program declares and calls a function whose last (relation) parameter is mentioned at least twice in its
+    body: the argument pipeline -- one PL node -- is lowered twice"""
+    for m in re.finditer(r"(?m)^let\s+(\w+)\s*=\s*([^\n]*?)->\s*(.*)$", src):
+        name, params, body = m.group(1), m.group(2), m.group(3)
+        ps = [w for w in re.findall(r"[A-Za-z_]\w*(?::\S+)?", params) if ":" not in w and w != "func"]
+        if not ps:
+            continue
+        last = ps[-1]
+        if len(re.findall(r"\b%s\b" % re.escape(last), body)) >= 2 and re.search(r"\b%s\b" % re.escape(name), src[m.end():]):
+            return True
+    return False
+
+
+def paren_body(src, i):
+    """text between the parenthesis at src[i] and its match"""
+    depth = 0
+    for j in range(i, len(src)):
+        if src[j] == "(":
+            depth += 1
+        elif src[j] == ")":
+            depth -= 1
+            if depth == 0:
+                return src[i + 1:j]
+    return src[i + 1:]
+
+
+def group_with_relational_argument(src):
+    for m in re.finditer(r"\bgroup\s*(\{[^}]*\}|[\w.`]+)\s*\(", src):
+        if re.search(r"\b(append|join|remove|intersect|loop)\b", paren_body(src, m.end() - 1)):
+            return True
+    return False
+
+
+def exclusion_in_sub_pipeline(src):
+    for m in re.finditer(r"select\s*!\{", src):
+        if src[:m.start()].count("(") > src[:m.start()].count(")"):
+            return True
+    return False
+
+
+def tableref_cids(q):
+    out = set()
+
+    def walk(p):
+        for t in p:
+            if t[0] in ("TFrom", "TAppend"):
+                out.update(c for _, c in t[1][2])
+            elif t[0] == "TJoin":
+                out.update(c for _, c in t[2][2])
+            elif t[0] == "TLoop":
+                walk(t[1])
+    for t in q[1]:
+        if t[3][1][0] == "KPipeline":
+            walk(t[3][1][1])
+    if q[2][1][0] == "KPipeline":
+        walk(q[2][1][1])
+    return out
+
+
+def classify_diags(q, diags, src=""):
     """known-finding id explaining ALL diagnostics of this RQ, or None.
     F2 is returned for its class as well; it is recorded as fixed, so Check.disagreement reports it as a VIOLATION."""
     if not diags:
         return None
     sortsite = ("STakeSort", "SWinSort")
+    partsite = ("STakePartition", "SWinPartition", "SAggPartition")
+    if all(d[0] in ("DForeign", "DNotVisible") for d in diags) and rel_param_twice(src):
+        return F6
     f1 = [d for d in diags if c16_wf.lax_diag(d)]
+    f5 = [d for d in diags if d[0] == "DForeign" and d[2] in partsite] if group_with_relational_argument(src) else []
     f2 = [d for d in diags if d[0] == "DForeign" and d[2] in sortsite]
-    rest = [d for d in diags if d not in f1 and d not in f2]
+    rest = [d for d in diags if d not in f1 and d not in f2 and d not in f5]
     if f2:
         return F2
     if rest:
-        # F4: an id of a sub-pipeline whose declared columns repeat a name escapes un-redirected into the pipeline
-        # that instantiates it
+        # F4: an id of a sub-pipeline whose declared columns repeat a name (or contain two unnamed columns) escapes
+        # un-redirected into the pipeline that instantiates it
         leaked = dup_column_tables(q)
         if all(d[0] == "DForeign" and d[3] in leaked for d in rest):
             return F4
+        # F7: a column excluded by `select !{..}` inside a joined sub-pipeline is still resolvable from outside and is
+        # bound to the sub-pipeline's own table-instance column
+        if exclusion_in_sub_pipeline(src) and all(d[0] == "DForeign" and d[3] in tableref_cids(q) for d in rest):
+            return F7
         return None
+    if f5:
+        return F5
     return F1
 
 
@@ -108,8 +181,11 @@ def has_multi_input_relation(src):
 
 def classify_lowerer_failure(case):
     p = case.get("panic") or {}
-    if "cannot find cid by id=" in p.get("msg", "") and "lowering.rs" in p.get("loc", "") and has_multi_input_relation(case["program"]):
-        return F3
+    if "cannot find cid by id=" in p.get("msg", "") and "lowering.rs" in p.get("loc", ""):
+        if rel_param_twice(case["program"]):
+            return F6
+        if has_multi_input_relation(case["program"]):
+            return F3
     return None
 
 
@@ -194,7 +270,7 @@ def run():
         if d:
             case = {"program": p, "diagnostics": [list(x) for x in d], "rq": rqcoq.to_coq(q)}
             ck.disagreement("the resolver emitted an RQ that violates the property: %s" % (d[:4],), case,
-                            lambda c, q=q, d=d: classify_diags(q, d))
+                            lambda c, q=q, d=d: classify_diags(q, d, c.get("program", "")))
 
     # ---------------------------------------------------------------- 3. the same predicate evaluated in Coq, cross-validated
     coq_ok = False
@@ -247,7 +323,7 @@ def run():
             q = rqcoq.norm(a["ok"])
             d = c16_wf.rq_diags(q)
             if d:
-                ck.disagreement("recorded finding reproduces", {"program": src, "diagnostics": [list(x) for x in d]}, lambda c, q=q, d=d: classify_diags(q, d))
+                ck.disagreement("recorded finding reproduces", {"program": src, "diagnostics": [list(x) for x in d]}, lambda c, q=q, d=d: classify_diags(q, d, c.get("program", "")))
             else:
                 ck.stat("finding-replay", "no-longer-reproduces:" + f["id"])
         elif "panic" in a:
